@@ -321,7 +321,139 @@ def o_long(case):
     return None
 
 
-ORACLES = {'long': o_long, 'layout': o_layout, 'empty': o_empty, 'dtype': o_dtype, 'output': o_output_independent,
+def _same_behaviour(a, b, z, idx):
+    """two modulator objects that must be indistinguishable: same table, same decisions, same round trip"""
+    if not np.array_equal(np.asarray(a.symbols), np.asarray(b.symbols)):
+        return 'symbols differ'
+    if int(a.M) != int(b.M) or float(a.K) != float(b.K):
+        return 'M/K differ: %r/%r vs %r/%r' % (a.M, a.K, b.M, b.K)
+    if not np.array_equal(np.asarray(a.demodulate(z)), np.asarray(b.demodulate(z))):
+        return 'decisions differ'
+    if not np.array_equal(np.asarray(a.modulate(idx)), np.asarray(b.modulate(idx))):
+        return 'modulate differs'
+    return None
+
+
+def o_forms(case):
+    """R8 argument forms (keyword / positional, constructor path vs setter path, numpy-integer M), R9 scalar
+    indexes of every integer type incl. > 256, R11 calls that are not setters leave the object unchanged,
+    R13 copies and pickles behave like the original and are independent of it"""
+    import copy
+    import pickle
+    f = _f()
+    kind, M, ph = case['kind'], case['M'], case.get('phase', 0.0)
+    ref = make_mod(kind, M, ph)
+    sym = np.asarray(ref.symbols, dtype=complex)
+    z = np.array([complex(*p) for p in case['samples']])
+    idx = np.array(case['idx'], dtype=int)
+    # ---- R8: every way of building the same modulator
+    builds = []
+    if kind == 'PSK':
+        builds = [('PSK(M, phaseOffset=ph)', lambda: f.PSK(M, phaseOffset=ph)),
+                  ('PSK(M=M, phaseOffset=ph)', lambda: f.PSK(M=M, phaseOffset=ph)),
+                  ('PSK(M); setPhaseOffset(ph)', lambda: _then(f.PSK(M), lambda o: o.setPhaseOffset(ph))),
+                  ('PSK(M, other); setPhaseOffset(phaseOffset=ph)',
+                   lambda: _then(f.PSK(M, 0.7), lambda o: o.setPhaseOffset(phaseOffset=ph))),
+                  ('PSK(np.int64(M), np.float64(ph))', lambda: f.PSK(np.int64(M), np.float64(ph))),
+                  ('PSK(np.int16(M), ph)', lambda: f.PSK(np.int16(M), ph))]
+        if ph == 0.0:
+            builds.append(('PSK(M) default offset', lambda: f.PSK(M)))
+    elif kind == 'QAM':
+        builds = [('QAM(M=M)', lambda: f.QAM(M=M)), ('QAM(np.int64(M))', lambda: f.QAM(np.int64(M))),
+                  ('QAM(np.uint16(M))', lambda: f.QAM(np.uint16(M)))]
+    elif kind == 'QPSK':
+        builds = [('PSK(4, pi/4)', lambda: f.PSK(4, np.pi / 4.0)), ('PSK(4, phaseOffset=pi/4)', lambda: f.PSK(4, phaseOffset=np.pi / 4.0))]
+    for name, b in builds:
+        o = b()
+        # the setter path re-labels PSK points for a non-zero offset (known C15 finding): compare as point SETS
+        # plus the behaviour the property states (nearest point of the object's own table, round trip)
+        so = np.asarray(o.symbols, dtype=complex)
+        if 'setPhaseOffset' in name:
+            if so.shape != sym.shape or not np.allclose(np.sort_complex(np.round(so, 9)), np.sort_complex(np.round(sym, 9)),
+                                                        atol=1e-9):
+                return 'forms:build:%s' % name, 'constellation differs from %s(%d, %r)' % (kind, M, ph)
+        else:
+            r = _same_behaviour(ref, o, z, idx)
+            if r:
+                return 'forms:build:%s' % name, r
+        got = np.atleast_1d(o.demodulate(z))
+        for k, zz in enumerate(z):
+            best, gap = brute_nearest(so, zz)
+            if gap >= 1e-9 and int(got[k]) != best and kind != 'BPSK':
+                return 'forms:build-not-nearest:%s' % name, 'sample %r -> %d, nearest %d' % (zz, got[k], best)
+        if not np.array_equal(np.asarray(o.demodulate(o.modulate(idx))), idx):
+            return 'forms:build-roundtrip:%s' % name, 'round trip'
+    # ---- R8: keyword arguments of modulate / demodulate, the generic Modulator with setConstellation
+    if not np.array_equal(np.asarray(ref.modulate(inputData=idx)), np.asarray(ref.modulate(idx))):
+        return 'forms:modulate(inputData=)', 'keyword form differs'
+    if not np.array_equal(np.asarray(ref.demodulate(receivedData=z)), np.asarray(ref.demodulate(z))):
+        return 'forms:demodulate(receivedData=)', 'keyword form differs'
+    if kind != 'BPSK':
+        g = f.Modulator()
+        g.setConstellation(np.array(sym))
+        r = _same_behaviour(ref, g, z, idx)
+        if r:
+            return 'forms:setConstellation:' + kind, r
+        g2 = f.Modulator()
+        g2.setConstellation(symbols=np.array(sym))
+        r = _same_behaviour(ref, g2, z, idx)
+        if r:
+            return 'forms:setConstellation(symbols=):' + kind, r
+    # ---- R9: scalar indexes of every integer type, first / last / beyond 256
+    want = sym if kind != 'BPSK' else np.array([1.0, -1.0])
+    picks = sorted({0, 1, M - 1, min(M - 1, 255), min(M - 1, 256), min(M - 1, 257), min(M - 1, 300)})
+    for i in picks:
+        forms = [('int', i), ('np.int64', np.int64(i)), ('np.intp', np.intp(i)), ('np.uint64', np.uint64(i)),
+                 ('0-d', np.array(i))]
+        if i < 2 ** 15:
+            forms += [('np.int16', np.int16(i)), ('np.uint16', np.uint16(i))]
+        if i < 2 ** 7:
+            forms += [('np.int8', np.int8(i)), ('np.uint8', np.uint8(i))]
+        for name, v in forms:
+            out = np.asarray(ref.modulate(v))
+            if out.shape != () or complex(out) != complex(want[i]):
+                return 'forms:scalar-index:%s:%s' % (kind, name), 'modulate(%s(%d)) = %r, table entry %r' % (name, i, out.tolist(), want[i])
+            back = np.asarray(ref.demodulate(np.asarray(out)))
+            if back.shape != () or int(back) != i:
+                return 'forms:scalar-roundtrip:%s:%s' % (kind, name), 'index %d comes back as %r' % (i, back.tolist())
+    # ---- R11: calls that are not setters leave the object as it was
+    o = make_mod(kind, M, ph)
+    before = (np.array(o.symbols, copy=True), o.M, o.K, o.name, repr(o))
+    d0 = np.array(o.demodulate(z), copy=True)
+    snr = np.array([0.0, 5.0, 10.0])
+    for _ in range(2):
+        repr(o), str(o), o.name, o.M, o.K
+        o.calcTheoreticalSER(snr), o.calcTheoreticalBER(snr), o.calcTheoreticalPER(snr, 10)
+        o.calcTheoreticalSpectralEfficiency(snr), o.calcTheoreticalSpectralEfficiency(snr, 10)
+        o.modulate(idx), o.demodulate(z), o.demodulate(np.asarray(o.modulate(idx)))
+        c1, c2 = copy.copy(o), copy.deepcopy(o)
+        c3 = pickle.loads(pickle.dumps(o))
+        after = (np.asarray(o.symbols), o.M, o.K, o.name, repr(o))
+        if not (np.array_equal(before[0], after[0]) and before[1:] == after[1:]):
+            return 'forms:query-mutates:' + kind, 'attributes changed by non-setter calls'
+        if not np.array_equal(np.asarray(o.demodulate(z)), d0):
+            return 'forms:query-mutates:' + kind, 'decisions changed by non-setter calls'
+        # ---- R13: derived objects
+        for name, c in (('deepcopy', c2), ('pickle', c3)):
+            r = _same_behaviour(o, c, z, idx)
+            if r:
+                return 'forms:%s:%s' % (name, kind), r
+            if kind == 'PSK':
+                c.setPhaseOffset(ph + 0.3)
+                if not np.array_equal(np.asarray(o.symbols), before[0]):
+                    return 'forms:%s-not-independent:%s' % (name, kind), 'setPhaseOffset on the copy changed the original'
+        r = _same_behaviour(o, c1, z, idx)
+        if r:
+            return 'forms:copy:' + kind, r
+    return None
+
+
+def _then(o, f):
+    f(o)
+    return o
+
+
+ORACLES = {'forms': o_forms, 'long': o_long, 'layout': o_layout, 'empty': o_empty, 'dtype': o_dtype, 'output': o_output_independent,
            'history': o_history, 'demodulate': o_nearest, 'roundtrip': o_roundtrip, 'constellation': o_constellation,
            'constructor': o_reject, 'modulate.oob': o_oob}
 
@@ -502,6 +634,11 @@ def oracles(ctx, psk_max, qam_max, nsamp, reject_max):
                            key=('dtype', kind, M, dt))
             run_oracle(ctx, 'output', {'kind': kind, 'M': M, 'phase': phase,
                                        'idx': [ctx.rng.below(M) for _ in range(6)]}, key=('output', kind, M))
+        if M <= 1024:
+            z = gen_samples(ctx.rng, m.symbols, 10, ctx.rng.choice(['near', 'uniform', 'boundary']))
+            run_oracle(ctx, 'forms', {'kind': kind, 'M': M, 'phase': phase, 'samples': [[c.real, c.imag] for c in z],
+                                      'idx': [ctx.rng.below(M) for _ in range(9)] + [M - 1]},
+                       key=('forms', kind, M, phase != 0))
         if kind != 'BPSK':
             run_oracle(ctx, 'modulate.oob', {'kind': kind, 'M': M, 'idx': [0, M]}, key=('oob', kind, M))
             run_oracle(ctx, 'modulate.oob', {'kind': kind, 'M': M, 'idx': [M + 5]}, key=('oob2', kind, M))
